@@ -160,6 +160,19 @@ var vfsNames = []string{
 
 var vfsRuleTypes = []uint16{dns.TypeA, dns.TypeAAAA, dns.TypeHTTPS, dns.TypeTXT, dns.TypeMX}
 
+// vfsRootTypes are the question types asked for the root name (the classic
+// amplification queries) and used in catch-all typed rules.
+var vfsRootTypes = []uint16{dns.TypeNS, dns.TypeANY, dns.TypeDNSKEY, dns.TypeA, dns.TypeSOA}
+
+// Special rule targets (vfsOpts.Root): the catch-all pattern, which needs a
+// $dnstype modifier ("*$dnstype=ANY"; a bare "*" is ignored by urlfilter), and
+// the root name ("||.^").  Verified against the real engines: both match a
+// query for "." when the engine is given the host ".".
+const (
+	vfsTargetAny  = "*"
+	vfsTargetRoot = "."
+)
+
 const (
 	vfsRuleHost = iota
 	vfsRuleDomain
@@ -187,6 +200,10 @@ func (r vfsRule) Text() string {
 	}
 
 	s := "||" + tgt + "^"
+	if r.Target == vfsTargetAny {
+		s = "*"
+	}
+
 	if r.Kind == vfsRuleException {
 		s = "@@" + s
 	}
@@ -211,7 +228,13 @@ func (r vfsRule) Matches(host string, qt uint16) bool {
 		return host == r.Target
 	}
 
-	if host != r.Target && !strings.HasSuffix(host, "."+r.Target) {
+	if r.Target == vfsTargetAny {
+		// every name, the root included
+	} else if r.Target == vfsTargetRoot {
+		if host != vfsTargetRoot {
+			return false
+		}
+	} else if host != r.Target && !strings.HasSuffix(host, "."+r.Target) {
 		return false
 	}
 
@@ -318,17 +341,42 @@ type vfsOpts struct {
 	// before any later stage: a malformed ECS option on the wire (FORMERR) and,
 	// on DoT, an invalid device ID in the TLS server name (handler error).
 	Malformed bool
+	// Root: also ask for the root name "." (NS, ANY, DNSKEY, A, SOA) and
+	// generate rules that can match it: "||.^[$dnstype=..]" and the catch-all
+	// "*$dnstype=[~]T", as blocking rules and as exceptions.
+	Root bool
 }
 
-func vfsDrawRule(t *rapid.T, label string, allowException bool) (r vfsRule) {
+func vfsDrawRule(t *rapid.T, label string, allowException, root bool) (r vfsRule) {
 	kinds := []int{vfsRuleHost, vfsRuleDomain, vfsRuleDomain, vfsRuleDomain}
 	if allowException {
 		kinds = append(kinds, vfsRuleException)
 	}
 
 	r.Kind = rapid.SampledFrom(kinds).Draw(t, label+"Kind")
-	r.Target = rapid.SampledFrom(vfsNames).Draw(t, label+"Target")
 	r.Upper = rapid.IntRange(0, 4).Draw(t, label+"Upper") == 0
+	if root && rapid.IntRange(0, 3).Draw(t, label+"Special") == 0 {
+		if r.Kind == vfsRuleHost {
+			r.Kind = vfsRuleDomain
+		}
+
+		types := append(append([]uint16{}, vfsRootTypes...), dns.TypeAAAA, dns.TypeTXT)
+		if rapid.Bool().Draw(t, label+"CatchAll") {
+			r.Target = vfsTargetAny
+			r.Type = rapid.SampledFrom(types).Draw(t, label+"Type")
+			r.NegType = rapid.IntRange(0, 4).Draw(t, label+"Neg") == 0
+		} else {
+			r.Target = vfsTargetRoot
+			if rapid.IntRange(0, 2).Draw(t, label+"Typed") == 0 {
+				r.Type = rapid.SampledFrom(types).Draw(t, label+"Type")
+				r.NegType = rapid.IntRange(0, 3).Draw(t, label+"Neg") == 0
+			}
+		}
+
+		return r
+	}
+
+	r.Target = rapid.SampledFrom(vfsNames).Draw(t, label+"Target")
 	if r.Kind != vfsRuleHost && rapid.IntRange(0, 2).Draw(t, label+"Typed") == 0 {
 		r.Type = rapid.SampledFrom(vfsRuleTypes).Draw(t, label+"Type")
 		r.NegType = rapid.IntRange(0, 3).Draw(t, label+"Neg") == 0
@@ -337,15 +385,23 @@ func vfsDrawRule(t *rapid.T, label string, allowException bool) (r vfsRule) {
 	return r
 }
 
-func vfsDrawRules(t *rapid.T, label string, maxN int) (rules []vfsRule) {
+func vfsDrawRules(t *rapid.T, label string, maxN int, root bool) (rules []vfsRule) {
 	n := rapid.IntRange(0, maxN).Draw(t, label+"N")
 	for i := 0; i < n; i++ {
 		// An exception only makes sense next to a blocking rule; draw it
 		// related to an earlier rule half of the time.
-		r := vfsDrawRule(t, fmt.Sprintf("%s%d", label, i), len(rules) > 0)
-		if r.Kind == vfsRuleException && rapid.Bool().Draw(t, fmt.Sprintf("%s%dRel", label, i)) {
+		r := vfsDrawRule(t, fmt.Sprintf("%s%d", label, i), len(rules) > 0, root)
+		special := r.Target == vfsTargetAny || r.Target == vfsTargetRoot
+		if r.Kind == vfsRuleException && !special && rapid.Bool().Draw(t, fmt.Sprintf("%s%dRel", label, i)) {
 			prev := rules[rapid.IntRange(0, len(rules)-1).Draw(t, fmt.Sprintf("%s%dPrev", label, i))]
-			switch rapid.IntRange(0, 2).Draw(t, fmt.Sprintf("%s%dHow", label, i)) {
+			how := rapid.IntRange(0, 2).Draw(t, fmt.Sprintf("%s%dHow", label, i))
+			if prev.Target == vfsTargetAny || prev.Target == vfsTargetRoot {
+				// Nothing to derive from a special target: a plain exception.
+				how = -1
+			}
+
+			switch how {
+			case -1:
 			case 0:
 				r.Target = prev.Target
 			case 1:
@@ -457,7 +513,7 @@ func vfsDrawConfig(t *rapid.T, o vfsOpts) (c *vfsConfig) {
 	}
 
 	if rapid.IntRange(0, 3-2*heavy).Draw(t, "globalRulesOn") == 0 {
-		c.GlobalRules = vfsDrawRules(t, "gRule", 1+heavy)
+		c.GlobalRules = vfsDrawRules(t, "gRule", 1+heavy, o.Root)
 	}
 
 	nProf := rapid.IntRange(1, 3).Draw(t, "nProf")
@@ -494,7 +550,7 @@ func vfsDrawConfig(t *rapid.T, o vfsOpts) (c *vfsConfig) {
 			}
 
 			a.AllowedASN = vfsDrawASNs(t, l+"AlwASN", c.Focus, 1+heavy, rel)
-			a.Rules = vfsDrawRules(t, l+"Rule", 2+heavy)
+			a.Rules = vfsDrawRules(t, l+"Rule", 2+heavy, o.Root)
 		}
 
 		nDev := rapid.IntRange(1, 2).Draw(t, l+"nDev")
@@ -1155,7 +1211,13 @@ type vfsRequest struct {
 	UnknownDedicated bool
 }
 
+// Host is the question name as rules see it: lower case without the final
+// dot; the root name stays ".".
 func (r *vfsRequest) Host() string {
+	if r.Name == "." {
+		return "."
+	}
+
 	return strings.ToLower(strings.TrimSuffix(r.Name, "."))
 }
 
@@ -1314,16 +1376,28 @@ func vfsDrawRequest(t *rapid.T, s *vfsStack, o vfsOpts) (r *vfsRequest) {
 
 	// Question.
 	var targets []string
-	for _, ru := range conf.GlobalRules {
-		targets = append(targets, ru.Target)
-	}
+	var specialTypes []uint16
+	for _, ru := range append(append([]vfsRule{}, conf.GlobalRules...), pc.Access.Rules...) {
+		if ru.Target == vfsTargetAny || ru.Target == vfsTargetRoot {
+			if ru.Type != 0 {
+				specialTypes = append(specialTypes, ru.Type)
+			}
 
-	for _, ru := range pc.Access.Rules {
+			continue
+		}
+
 		targets = append(targets, ru.Target)
 	}
 
 	host := ""
-	if len(targets) > 0 && rapid.IntRange(0, 2).Draw(t, "nameFromRules") > 0 {
+	rootOdds := 9
+	if len(specialTypes) > 0 {
+		rootOdds = 3
+	}
+
+	if o.Root && rapid.IntRange(0, rootOdds).Draw(t, "rootName") == 0 {
+		host = ""
+	} else if len(targets) > 0 && rapid.IntRange(0, 2).Draw(t, "nameFromRules") > 0 {
 		tgt := targets[rapid.IntRange(0, len(targets)-1).Draw(t, "nameTarget")]
 		switch rapid.IntRange(0, 5).Draw(t, "nameRel") {
 		case 0, 1, 2:
@@ -1340,7 +1414,17 @@ func vfsDrawRequest(t *rapid.T, s *vfsStack, o vfsOpts) (r *vfsRequest) {
 	}
 
 	r.Name = vfsMixCase(t, host+".")
-	r.QType = rapid.SampledFrom(vfsRuleTypes).Draw(t, "qtype")
+	switch {
+	case host == "":
+		// The root name.
+		r.QType = rapid.SampledFrom(vfsRootTypes).Draw(t, "rootQType")
+	case o.Root && len(specialTypes) > 0 && rapid.IntRange(0, 2).Draw(t, "qtypeFromRules") == 0:
+		r.QType = rapid.SampledFrom(specialTypes).Draw(t, "qtypeSpecial")
+	case o.Root:
+		r.QType = rapid.SampledFrom(append(append([]uint16{}, vfsRuleTypes...), dns.TypeNS, dns.TypeANY)).Draw(t, "qtype")
+	default:
+		r.QType = rapid.SampledFrom(vfsRuleTypes).Draw(t, "qtype")
+	}
 	r.QClass = dns.ClassINET
 	if rapid.IntRange(0, 9).Draw(t, "chaos") == 0 {
 		r.QClass = dns.ClassCHAOS
